@@ -685,3 +685,4 @@ CHECKS["C01"]["required_classes"]["all"] += ["overlapping-updates-of-a-record-wi
 CHECKS["C08"]["jobs"].append(J("overlapping-writers", VSTORE, "TestC01OverlappingWrites", {"shards": 2, "n": 40}, {"shards": 8, "n": 3000}, rapid=False))
 CHECKS["C08"]["required_classes"]["all"] += ["overlapping-updates-of-a-record-with-auxiliary-data"]
 CHECKS["C08"]["required_classes"]["all"] += ["work-area-had-leftovers-under-the-names-a-dry-run-used"]
+CHECKS["C11"]["required_classes"]["all"] += ["free-running:hook-rounds-while-serving,relative-base-directory"]
